@@ -164,6 +164,14 @@ def _grid_handler(fn_name, label):
     return h
 
 
+def _h_wrapper13(rec):
+    fails = rt.rt_argcheck_grid(first_only=True)
+    if fails:
+        return True, fails[0]["what"]
+    return False, "the exhaustive wrong-shape lattice on real bijections (incl. rank-0 shapes and cond_shapes) is rejected as documented"
+
+
+HANDLERS["wrapper13"] = _h_wrapper13
 HANDLERS["transformed"] = _grid_handler("rt_c03", "C03 change-of-variables")
 HANDLERS["merge_transforms"] = _grid_handler("rt_c03", "C03 change-of-variables")
 
